@@ -66,7 +66,7 @@ pub fn main(args: &Args) -> i32 {
         }
         gate.disarm_all();
         session_probe(&mut rep);
-        if shard == 0 { rtr_timing_probe(&mut rep); initial_probe(&mut rep); burst_probe(&mut rep); full_history_probe(&mut rep); }
+        if shard == 0 { rtr_timing_probe(&mut rep); initial_probe(&mut rep); burst_probe(&mut rep); full_history_probe(&mut rep); serial_identity_probe(&mut rep); }
     }
     for (idx, b) in behaviours.iter().enumerate() {
         if idx % nshards != shard { continue }
@@ -747,6 +747,57 @@ fn burst_probe(rep: &mut Report) {
         }
         if in_one_second >= 3 { rep.nontrivial("C16", format!("burst|{round}|{in_one_second}")); rep.add_note("C16", "bursts_with_three_runs_in_one_second", 1); }
         rep.add_note("C16", "bursts", 1);
+    }
+}
+
+/// C15 without any interleaving, over history sizes: a (session, serial) names one data set.  Four runs with pairwise
+/// different data, then the same data again; after every run the RTR reset answer and the HTTP document are taken.
+/// Two answers tagged with the same (session, serial) / ETag must carry the same data, and a serial query presenting
+/// an earlier tag must not be told "nothing changed" when the data did.  history-size 0 keeps no usable history, but the
+/// serial still has to move with the data (history.rs: "at least one delta since it carries the serial").
+fn serial_identity_probe(rep: &mut Report) {
+    for keep in [0usize, 1, 2, 10] {
+        let mut fx = Fixture::start(move |c| { c.history_size = keep; });
+        let port = fx.http_port;
+        let mut seen: Vec<(usize, u16, u32, String, String, Vec<u8>)> = Vec::new();   // (run, session, serial, rtr items, etag, body)
+        for (run, d) in [1i64, 2, 3, 1, 1].iter().enumerate() {
+            if fx.process_once(&slurm(&concrete(*d)), run == 0).is_err() { rep.divergence("C15", "serial identity probe: run failed"); return }
+            let a = rtr_query(fx.rtr_port, None, Duration::from_secs(5));
+            let h = match http_get(port, "/json", &[]) { Ok(r) if r.status == 200 => r, _ => { rep.divergence("C15", "serial identity probe: no data"); return } };
+            if a.kind != "cache-response" { rep.divergence("C15", format!("serial identity probe: RTR answered {}", a.kind)); return }
+            let mut items: Vec<String> = a.items.iter().map(|i| format!("{:?}", i)).collect();
+            items.sort();
+            let items = items.join(";");
+            let etag = h.header("etag").unwrap_or("").to_string();
+            // the JSON document carries its generation time: compare the part after the metadata
+            let body: Vec<u8> = { let b = String::from_utf8_lossy(&h.body).to_string(); b[b.find("\"roas\"").unwrap_or(0)..].as_bytes().to_vec() };
+            let ctx = json!({"probe": "serial-identity", "history_size": keep, "data_sets": [1, 2, 3, 1, 1], "run": run});
+            for (orun, osess, oserial, oitems, oetag, obody) in seen.iter() {
+                rep.eval("C15");
+                if *osess == a.session && *oserial == a.serial && *oitems != items {
+                    rep.violation("C15", &format!("one-serial-two-data-sets/rtr/history-size-{}", if keep == 0 { "0" } else { "n" }),
+                        format!("the RTR reset answers after run {orun} and after run {run} are both tagged (session {}, serial {}) but carry different data (history-size {keep})", a.session, a.serial),
+                        ctx.clone(), json!({"serial": a.serial, "first": oitems, "second": items}));
+                }
+                if !etag.is_empty() && *oetag == etag && *obody != body {
+                    rep.violation("C15", &format!("one-etag-two-data-sets/http/history-size-{}", if keep == 0 { "0" } else { "n" }),
+                        format!("/json after run {orun} and after run {run} carry the same ETag {etag} but different data (history-size {keep})"),
+                        ctx.clone(), json!({"etag": etag}));
+                }
+                // a router that holds the earlier answer asks for changes
+                if *oitems != items {
+                    rep.eval("C15");
+                    let q = rtr_query(fx.rtr_port, Some((*osess, *oserial)), Duration::from_secs(5));
+                    if q.kind == "cache-response" && q.items.is_empty() {
+                        rep.violation("C15", &format!("changed-data-reported-unchanged/history-size-{}", if keep == 0 { "0" } else { "n" }),
+                            format!("a router holding the data of run {orun} (serial {oserial}) is told nothing changed although the data of run {run} differs (history-size {keep})"),
+                            ctx.clone(), json!({"presented": oserial, "answer_serial": q.serial}));
+                    }
+                }
+            }
+            rep.nontrivial("C15", format!("serial-identity|{keep}|{run}"));
+            seen.push((run, a.session, a.serial, items, etag, body));
+        }
     }
 }
 
